@@ -59,10 +59,11 @@ def cases(draw):
             u = draw(st.sampled_from([0.999, 0.999, 0.5, 0.1]))
             recipe = dict(recipe, obj=ob.scaled(recipe["obj"], u * r / (K(n) * L)))
     case = {"recipe": recipe, "params": {"r": r, "eps": eps, "itersLimit": 5000}, "class": cls}
-    if draw(st.integers(0, 119)) == 0:
+    if draw(st.integers(0, 119)) == 57:
         # a very long run: a flat 1-D objective with one narrow well (half-width w, depth h = 2w, so K_1*L = 4 <= r),
-        # eps = w/10: the search refines [0,1] uniformly for tens of thousands of trials before the well decides
-        w = float(2.0 ** -draw(st.integers(11, 13))) * draw(st.floats(0.6, 1.0))
+        # eps = w/10: the search refines [0,1] uniformly for tens of thousands of trials (8,000-70,000) before the well,
+        # which is narrower than the intervals of the first few thousand trials, decides
+        w = float(2.0 ** -draw(st.integers(12, 14))) * draw(st.floats(0.35, 0.7))
         c = draw(st.floats(0.05, 0.95))
         case = {"recipe": {"n": 1, "lower": [0.0], "upper": [1.0], "density": 10,
                            "obj": {"family": "needle", "c": [c], "w": w, "h": 2.0 * w}},
